@@ -20,7 +20,22 @@ func init() {
 	numerical.VerifYield, numerical.VerifKnob = simsched.Yield, simsched.Knob
 	render3d.VerifYield, render3d.VerifKnob = simsched.Yield, simsched.Knob
 	toolbox3d.VerifYield, toolbox3d.VerifKnob = simsched.Yield, simsched.Knob
-	essentials.VerifYield = simsched.Yield
+	essentials.VerifYield = shimYield
 	essentials.VerifAcquire = simsched.Acquire
 	essentials.VerifRelease = simsched.Release
+}
+
+// shimYield: the per-item scheduling point of the essentials helpers can be
+// thinned out for large workloads (knob "cm.itemStride"; default: every item),
+// so that a lattice of a million items does not cost a million decisions.  The
+// worker-start, reduce and wait points always yield.
+//
+//go:norace
+func shimYield(site string, key int) {
+	if site == "cm.worker.item" {
+		if stride := simsched.Knob("cm.itemStride", 1); stride > 1 && key%stride != 0 {
+			return
+		}
+	}
+	simsched.Yield(site, key)
 }
